@@ -22,6 +22,7 @@ EXPLANATION = (
     "non-empty, all before the model is decorated. Not decided: correctness of the breadth-first component search beyond "
     "its index spaces.")
 ASSUMPTIONS = ["scipy.sparse.csgraph.breadth_first_order returns node ids of the given adjacency matrix", "check_array(ensure_2d, ensure_min_features=2, dtype=int)"]
+ADOPT = [("C10", ["C10-e"], "the extra gradient is placed with the indices recorded by the decorated _batchify: they must be those of the batch being trained on")]
 
 M = "gemclus.mlcl"
 
@@ -88,11 +89,12 @@ def run(pm, ctx):
             ctx.unrecognised("C14-b", site, "the pair is not unpacked into two sample ids")
             continue
         a, b = tg
-        guard = lp.body[0] if len(lp.body) == 1 and isinstance(lp.body[0], ast.If) else None
-        body = guard.body if guard is not None else lp.body
-        if guard is None or sorted(norm_src(v) for v in (guard.test.values if isinstance(guard.test, ast.BoolOp) and isinstance(guard.test.op, ast.And) else [guard.test])) != \
-                sorted([f"{a} in last_indices", f"{b} in last_indices"]):
-            probs.append("the update is not guarded by both samples being in the batch (list.index raises for an absent sample)")
+        gstat, body, gwhy = _pair_guard(lp, a, b)
+        if gstat == "unrecognised":
+            ctx.unrecognised("C14-b", site, gwhy)
+            continue
+        if gstat == "bad":
+            probs.append(gwhy)
         idx = [s for s in body if isinstance(s, ast.Assign) and isinstance(s.targets[0], ast.Tuple)]
         rows = None
         if idx and [norm_src(e) for e in idx[0].value.elts] == [f"last_indices.index({a})", f"last_indices.index({b})"]:
@@ -220,6 +222,61 @@ def _same_modulo_strings(a, b, mapping):
     b2 = ast.fix_missing_locations(Strip().visit(copy.deepcopy(b)))
     return mirror_equal(a2, b2, mapping)
 
+
+
+def _membership(test, names, coll="last_indices"):
+    """-> ('all_in' | 'some_out' | None): test is `a in L and b in L` / its negation (De Morgan forms)"""
+    def atom(e):
+        if isinstance(e, ast.Compare) and len(e.ops) == 1 and norm_src(e.comparators[0]) == coll and norm_src(e.left) in names:
+            if isinstance(e.ops[0], ast.In):
+                return ("in", norm_src(e.left))
+            if isinstance(e.ops[0], ast.NotIn):
+                return ("out", norm_src(e.left))
+        if isinstance(e, ast.UnaryOp) and isinstance(e.op, ast.Not):
+            a = atom(e.operand)
+            if a:
+                return ("out" if a[0] == "in" else "in", a[1])
+        return None
+    if isinstance(test, ast.UnaryOp) and isinstance(test.op, ast.Not):
+        r = _membership(test.operand, names, coll)
+        return {"all_in": "some_out", "some_out": "all_in"}.get(r)
+    if isinstance(test, ast.BoolOp):
+        ats = [atom(v) for v in test.values]
+        if None in ats or {a[1] for a in ats} != set(names):
+            return None
+        if isinstance(test.op, ast.And) and all(a[0] == "in" for a in ats):
+            return "all_in"
+        if isinstance(test.op, ast.Or) and all(a[0] == "out" for a in ats):
+            return "some_out"
+    return None
+
+
+def _pair_guard(lp, a, b):
+    """the statements executed for a pair whose two samples are in the batch. -> (status, body, why)"""
+    early = [n for n in ast.walk(lp) if isinstance(n, (ast.Break, ast.Return))]
+    if early:
+        return "bad", [x for x in lp.body if not isinstance(x, ast.If)] or lp.body, \
+            f"`{norm_src(early[0])}` inside the loop over pairs: once one pair is not in the batch, all later pairs are skipped"
+    first = lp.body[0]
+    if isinstance(first, ast.If):
+        m = _membership(first.test, (a, b))
+        if m == "all_in" and len(lp.body) == 1 and not first.orelse:
+            return "ok", first.body, ""
+        if m == "some_out" and len(first.body) == 1 and isinstance(first.body[0], ast.Continue) and not first.orelse:
+            return "ok", lp.body[1:], ""
+        if m == "some_out" and first.orelse and len(lp.body) == 1 and all(isinstance(x, (ast.Pass, ast.Continue)) for x in first.body):
+            return "ok", first.orelse, ""
+        if m is None and any(isinstance(n, ast.Compare) and isinstance(n.ops[0], (ast.In, ast.NotIn)) for n in ast.walk(first.test)):
+            names = {norm_src(n.left) for n in ast.walk(first.test) if isinstance(n, ast.Compare) and isinstance(n.ops[0], (ast.In, ast.NotIn))}
+            if names < {a, b} or (isinstance(first.test, ast.BoolOp) and isinstance(first.test.op, ast.Or) and all(
+                    isinstance(v, ast.Compare) and isinstance(v.ops[0], ast.In) for v in first.test.values)):
+                return "bad", first.body, f"the guard `{norm_src(first.test)}` does not require BOTH samples to be in the batch (list.index raises for an absent sample)"
+        return "unrecognised", None, f"guard `{norm_src(first.test)[:80]}` of the pair loop"
+    if any(isinstance(n, ast.Try) for n in lp.body):
+        return "unrecognised", None, "pair loop uses try/except"
+    if any(isinstance(n, ast.Call) and isinstance(n.func, ast.Attribute) and n.func.attr == "index" for n in ast.walk(lp)):
+        return "bad", lp.body, "the update is not guarded by both samples being in the batch (list.index raises for an absent sample)"
+    return "unrecognised", None, "pair loop without membership guard"
 
 def controls(pm, tier):
     out = []
